@@ -1331,6 +1331,27 @@ def _check_filter(ctx: Ctx, B: _BlockLib, F, g: GenBlock, mined: bool) -> None:
         ctx.mon("filter-must-match")
         if o[0] == "raise" or o[1] is not True:
             ctx.violation("filter-false-negative:match_any", f"match_any with an inserted script among strangers -> {o[1]!r}", {**desc, "element": some[0]})
+        # many strangers around one member (the member with the smallest and the largest hash, and a random one): the
+        # walk over the two sorted sequences has to pass every stranger hashing below the member
+        by_hash = sorted(items, key=lambda e: rg.hash_to_range(e, n * rg.BASIC_M, key))
+        for member in {by_hash[0], by_hash[-1], rng.choice(by_hash)}:
+            for k in (2, 7, 40):
+                kinds = ("p2tr", "p2pkh", "p2wsh", "p2wpkh")
+                query = [_script(rng, kinds[j % 4]) for j in range(k)] + [member]
+                rng.shuffle(query)
+                o = outcome(f.match_any, query)
+                ctx.mon("filter-must-match")
+                if o[0] == "raise" or o[1] is not True:
+                    ctx.violation("filter-false-negative:match_any", f"match_any({k} strangers + one inserted script) -> {o[1]!r} ({n} elements)",
+                                  {**desc, "element": member, "strangers": k})
+        ctx.bulk("filter:match_any-among-strangers", 9)
+        # strangers only: the exact verdict is the reference's (a false positive is an answer the filter is entitled to)
+        query = [_script(rng, "p2wsh") for _ in range(25)]
+        hs = set(rg.hashed_set_construct(items, key))
+        want_any = any(rg.hash_to_range(q, n * rg.BASIC_M, key) in hs for q in query)
+        o = outcome(f.match_any, query)
+        if o[0] == "raise" or o[1] is not want_any:
+            ctx.violation("filter-match_any-differs-from-bip158", f"match_any(25 strangers) -> {o[1]!r}, BIP158 reference says {want_any}", desc)
     o = outcome(f.match, _script(rng, "p2wsh"))
     ctx.stat("filter:stranger-" + ("matches(false-positive)" if o[0] == "ok" and o[1] else "rejected"))
     for s in excluded[:2]:
